@@ -1496,6 +1496,9 @@ class _DynamicallyDefineDataIdentifierResponse(
     ) -> T_DynamicallyDefineDataIdentifierResponse:
         dynamically_defined_data_identifier: int | None = None
 
+        if len(pdu) == 3:
+            raise ValueError("The dynamicallyDefinedDataIdentifier is incomplete")
+
         if len(pdu) > 2:
             dynamically_defined_data_identifier = from_bytes(pdu[2:])
 
